@@ -29,6 +29,7 @@ var c14Statements = []string{
 	"case csx { leaf csl { type string; } }",
 	"choice chx { leaf chl { type string; } }",
 	"config false;",
+	"config true;",
 	"contact \"c\";",
 	"container cx { leaf cxl { type string; } }",
 	"default \"dx\";",
@@ -158,22 +159,136 @@ var c14Hosts = map[string]string{
 	"belongs-to":      "belongs-to hostm { prefix hm; %s }",
 }
 
+// c14NestedHosts puts the slot one level further down: inside a data node of
+// every kind that itself sits inside every kind of block that can hold data
+// nodes (a property that is legal on a leaf in a container may be one the
+// compiler cannot inherit or check below an rpc input, a notification, a case).
+func c14NestedHosts() map[string]string {
+	outer := map[string]string{
+		"module": "%s", "container": "container hc { %s }", "list": "list hl { key k; leaf k { type string; } %s }",
+		"choice": "choice hch { %s }", "case": "choice hch { case hcs { %s } }", "input": "rpc hr { input { %s } }",
+		"output": "rpc hr { output { %s } }", "notification": "notification hn { %s }",
+		"action-input": "container hc { action ha { input { %s } } }", "grouping": "grouping hg { %s } uses hg;",
+		"grouping-in-input": "grouping hg { %s } rpc hr { input { uses hg; } }",
+		"augment": "augment \"/c\" { %s }", "uses-augment": "uses gc { augment gcc { %s } }",
+		"nested-notification": "container hc { notification hn { %s } }",
+	}
+	inner := map[string]string{
+		"leaf": "leaf zl { type string; %s }", "leaf-list": "leaf-list zll { type string; %s }", "container": "container zc { %s }",
+		"list": "list zli { key zk; leaf zk { type string; } %s }", "choice": "choice zch { %s }", "anydata": "anydata zad { %s }",
+		"leaf-int": "leaf zl { type int32; %s }",
+	}
+	out := map[string]string{}
+	for on, o := range outer {
+		for in, i := range inner {
+			out["in-"+on+"/"+in] = strings.Replace(o, "%s", i, 1)
+		}
+	}
+	return out
+}
+
+// c14Targets: every operation that names another node by a schema path
+// (deviation, augment, uses-augment, refine, leafref, key, unique, choice
+// default) aimed at every kind of node, including none. The resolver and the
+// compiler look the path up and use what they find.
+func c14Targets() []*load.Case {
+	const pre = "module hostm { yang-version 1.1; namespace \"urn:hostm\"; prefix hostm; feature fx; identity idx; grouping gx { leaf gxl { type string; } } "
+	type target struct{ name, def, path, rel string }
+	targets := []target{
+		{"container", "container tg { leaf x { type string; } }", "/tg", "tg"},
+		{"presence-container", "container tg { presence p; }", "/tg", "tg"},
+		{"list", "list tg { key k; leaf k { type string; } }", "/tg", "tg"},
+		{"leaf", "leaf tg { type string; }", "/tg", "tg"},
+		{"leaf-int", "leaf tg { type int32; default 3; units u; }", "/tg", "tg"},
+		{"leaf-list", "leaf-list tg { type string; }", "/tg", "tg"},
+		{"choice", "choice tg { case a { leaf ca { type string; } } }", "/tg", "tg"},
+		{"case", "choice zc { case tg { leaf ca { type string; } } }", "/zc/tg", "zc/tg"},
+		{"shorthand-case-leaf", "choice zc { leaf tg { type string; } }", "/zc/tg/tg", "zc/tg/tg"},
+		{"shorthand-case", "choice zc { leaf tg { type string; } }", "/zc/tg", "zc/tg"},
+		{"anydata", "anydata tg;", "/tg", "tg"},
+		{"rpc", "rpc tg { input { leaf i { type string; } } }", "/tg", "tg"},
+		{"rpc-input", "rpc tg { input { leaf i { type string; } } }", "/tg/input", "tg/input"},
+		{"rpc-output-absent", "rpc tg { input { leaf i { type string; } } }", "/tg/output", "tg/output"},
+		{"rpc-input-leaf", "rpc tg { input { leaf i { type string; } } }", "/tg/input/i", "tg/input/i"},
+		{"notification", "notification tg { leaf n { type string; } }", "/tg", "tg"},
+		{"action", "container zc { action tg { input { leaf i { type string; } } } }", "/zc/tg", "zc/tg"},
+		{"leaf-in-list", "list zl { key k; leaf k { type string; } leaf tg { type string; } }", "/zl/tg", "zl/tg"},
+		{"key-leaf", "list zl { key tg; leaf tg { type string; } }", "/zl/tg", "zl/tg"},
+		{"grouping", "grouping tg { leaf q { type string; } }", "/tg", "tg"},
+		{"typedef", "typedef tg { type string; }", "/tg", "tg"},
+		{"identity", "identity tg;", "/tg", "tg"},
+		{"feature", "feature tg;", "/tg", "tg"},
+		{"missing", "", "/tg", "tg"},
+		{"missing-below-leaf", "leaf zq { type string; }", "/zq/tg", "zq/tg"},
+		{"prefixed", "container tg { leaf x { type string; } }", "/hostm:tg/hostm:x", "hostm:tg/hostm:x"},
+		{"unknown-prefix", "container tg { leaf x { type string; } }", "/zz:tg", "zz:tg"},
+		{"trailing-slash", "container tg { leaf x { type string; } }", "/tg/", "tg/"},
+		{"double-slash", "container tg { leaf x { type string; } }", "//tg", "/tg"},
+	}
+	deviates := []string{"not-supported;", "add { default 1; }", "add { units u; }", "add { max-elements 3; }", "add { min-elements 1; }",
+		"add { must \"1=1\"; }", "add { unique \"x\"; }", "add { config false; }", "add { mandatory true; }", "add { default a; default b; }",
+		"replace { type int8; }", "replace { default 2; }", "replace { units v; }", "replace { config false; }", "replace { mandatory false; }",
+		"replace { min-elements 2; }", "replace { max-elements 9; }", "replace { type leafref { path \"../zq\"; } }",
+		"delete { default 3; }", "delete { units u; }", "delete { must \"1=1\"; }", "delete { unique \"x\"; }", "delete { default nope; }"}
+	contents := []string{"leaf al { type string; }", "container ac { }", "list ali { key k; leaf k { type string; } }", "leaf-list all { type string; }",
+		"choice ach { leaf acl { type string; } }", "case acs { leaf acl { type string; } }", "action aa;", "notification an;", "anydata aad;", "uses gx;",
+		"leaf al { type string; mandatory true; }", "leaf x { type string; }"}
+	refines := []string{"default x;", "default 1; default 2;", "mandatory true;", "config false;", "min-elements 1;", "max-elements 2;", "presence p;",
+		"description d;", "must \"1=1\";", "if-feature fx;", "reference r;"}
+	var out []*load.Case
+	add := func(id, body string) {
+		out = append(out, &load.Case{ID: "target|" + id, Main: pre + body + " }", Order: load.OrderSpec{Mode: "sorted"}})
+	}
+	for _, t := range targets {
+		for i, d := range deviates {
+			add(fmt.Sprintf("%s|deviate#%d", t.name, i), fmt.Sprintf("%s deviation \"%s\" { deviate %s }", t.def, t.path, d))
+		}
+		for i, c := range contents {
+			add(fmt.Sprintf("%s|augment#%d", t.name, i), fmt.Sprintf("%s augment \"%s\" { %s }", t.def, t.path, c))
+			add(fmt.Sprintf("%s|uses-augment#%d", t.name, i), fmt.Sprintf("grouping tgg { %s } uses tgg { augment \"%s\" { %s } }", t.def, t.rel, c))
+			add(fmt.Sprintf("%s|augment-when#%d", t.name, i), fmt.Sprintf("%s augment \"%s\" { when \"1=1\"; if-feature fx; %s }", t.def, t.path, c))
+		}
+		for i, r := range refines {
+			add(fmt.Sprintf("%s|refine#%d", t.name, i), fmt.Sprintf("grouping tgg { %s } uses tgg { refine \"%s\" { %s } }", t.def, t.rel, r))
+		}
+		add(t.name+"|leafref-abs", fmt.Sprintf("%s leaf lr { type leafref { path \"%s\"; } }", t.def, t.path))
+		add(t.name+"|leafref-rel", fmt.Sprintf("%s leaf lr { type leafref { path \"../%s\"; } }", t.def, t.rel))
+		add(t.name+"|leafref-in-typedef", fmt.Sprintf("%s typedef lrt { type leafref { path \"%s\"; } } container lc { leaf lr { type lrt; } }", t.def, t.path))
+		add(t.name+"|leafref-in-union", fmt.Sprintf("%s leaf lr { type union { type int8; type leafref { path \"%s\"; } } }", t.def, t.path))
+		add(t.name+"|leafref-in-grouping", fmt.Sprintf("%s grouping lg { leaf lr { type leafref { path \"%s\"; } } } container lc { uses lg; }", t.def, t.path))
+		add(t.name+"|key", fmt.Sprintf("list kl { key tg; %s }", t.def))
+		add(t.name+"|key-second", fmt.Sprintf("list kl { key \"k tg\"; leaf k { type string; } %s }", t.def))
+		add(t.name+"|unique", fmt.Sprintf("list kl { key k; unique \"%s\"; leaf k { type string; } %s }", t.rel, t.def))
+		add(t.name+"|choice-default", fmt.Sprintf("choice dch { default tg; %s }", t.def))
+		add(t.name+"|deviation-twice", fmt.Sprintf("%s deviation \"%s\" { deviate not-supported; } deviation \"%s\" { deviate add { units u; } }", t.def, t.path, t.path))
+		add(t.name+"|augment-then-deviate", fmt.Sprintf("%s augment \"%s\" { leaf al { type string; } } deviation \"%s/al\" { deviate not-supported; }", t.def, t.path, t.path))
+	}
+	return out
+}
+
 func c14Matrix(twice bool) []*load.Case {
 	const pre = "module hostm { yang-version 1.1; namespace \"urn:hostm\"; prefix hostm; "
-	const common = " extension extx { argument a; } feature fx; feature fy; identity idx; grouping gx { leaf gxl { type string; } } leaf lx { type string; } container c { leaf cl { type string; } } }"
+	const common = " extension extx { argument a; } feature fx; feature fy; identity idx; grouping gx { leaf gxl { type string; } } grouping gc { container gcc { leaf gcl { type string; } } } leaf lx { type string; } container c { leaf cl { type string; } } }"
 	files := map[string]string{
 		"impx": "module impx { namespace \"urn:impx\"; prefix ix; typedef t { type string; } grouping g { leaf x { type string; } } }",
 		"incx": "submodule incx { belongs-to hostm { prefix hm; } leaf incl { type string; } }",
 	}
+	hosts := map[string]string{}
+	for h, t := range c14Hosts {
+		hosts[h] = t
+	}
+	for h, t := range c14NestedHosts() {
+		hosts[h] = t
+	}
 	var hostNames []string
-	for h := range c14Hosts {
+	for h := range hosts {
 		hostNames = append(hostNames, h)
 	}
 	sort.Strings(hostNames)
 	var out []*load.Case
 	for _, h := range hostNames {
 		for si, s := range c14Statements {
-			body := fmt.Sprintf(c14Hosts[h], s)
+			body := fmt.Sprintf(hosts[h], s)
 			kw := s
 			if i := strings.IndexAny(s, " ;"); i > 0 {
 				kw = s[:i]
@@ -181,7 +296,7 @@ func c14Matrix(twice bool) []*load.Case {
 			out = append(out, &load.Case{ID: fmt.Sprintf("matrix|%s|%s#%d", h, kw, si), Main: pre + body + common, Files: files, Order: load.OrderSpec{Mode: "sorted"}})
 			if twice {
 				// the same statement twice in one block (most are allowed once only)
-				out = append(out, &load.Case{ID: fmt.Sprintf("matrix2|%s|%s#%d", h, kw, si), Main: pre + fmt.Sprintf(c14Hosts[h], s+" "+s) + common, Files: files, Order: load.OrderSpec{Mode: "sorted"}})
+				out = append(out, &load.Case{ID: fmt.Sprintf("matrix2|%s|%s#%d", h, kw, si), Main: pre + fmt.Sprintf(hosts[h], s+" "+s) + common, Files: files, Order: load.OrderSpec{Mode: "sorted"}})
 			}
 		}
 	}
